@@ -86,7 +86,12 @@ class Func:
 
     def site(self, node=None):
         node = node if node is not None else self.node
-        return f'{self.module.relpath}:{getattr(node, "lineno", 0)}'
+        # a definition that was found in another module than its reference one keeps the file it really stands in
+        f, rel = self, None
+        while f is not None and rel is None:
+            rel = getattr(f.node, '_found_in', None)
+            f = f.parent
+        return f'{rel or self.module.relpath}:{getattr(node, "lineno", 0)}'
 
     def __repr__(self):
         return f'<Func {self.fq}>'
@@ -156,7 +161,8 @@ class Project:
         from .normalize import normalize
         self.inline_log = []
         if not os.environ.get('SA_NO_INLINE'):
-            from .inline import undo_renames
+            from .inline import undo_renames, undo_moves
+            undo_moves(self.modules, log=self.inline_log)
             undo_renames(self.modules, log=self.inline_log)
             if Inliner(self.modules, log=self.inline_log).run():
                 for m in self.modules.values():
@@ -165,6 +171,15 @@ class Project:
             set_parents(m.tree)
         for m in self.modules.values():
             self._index_module(m)
+        # a module-level constant imported from another module of the package is a constant here too
+        for _ in range(2):
+            for m in self.modules.values():
+                for local, full in list(m.imports.items()):
+                    mod, sep, name = full.partition(':')
+                    src_m = self.modules.get(mod) if sep else None
+                    if src_m is not None and local not in m.assigns and len(src_m.assigns.get(name, ())) == 1 \
+                            and name not in src_m.functions and name not in src_m.classes:
+                        m.assigns[local] = list(src_m.assigns[name])
 
     def _resolve_relative(self, m, level, module):
         if level == 0:
